@@ -134,6 +134,7 @@ MovePost(p, q) == \* git mv <p> <q>
 \*  tracked name: git clean leaves it - found by the git witness; both outcomes are allowed there)
 CleanPost ==     \* git clean -f -d: untracked files go, everything else stays
   [verdict |-> "ok", head |-> "H", idx |-> Single(I),
+   nodir |-> TRUE,      \* an empty directory tree in the worktree is gone afterwards
    wt |-> [p \in Paths |-> IF Untracked(p) THEN (IF CleanEntangled(p) THEN {None, W[p]} ELSE {None}) ELSE {W[p]}]]
 
 CommitPost ==    \* records exactly the index; refuses an empty commit
@@ -191,6 +192,9 @@ AllOps == {"reset-hard", "checkout-force", "checkout-force-create", "checkout", 
 Args(o) == CASE o \in {"add", "remove"} -> {<<p>> : p \in Paths}
              [] o = "move" -> {<<pq[1], pq[2]>> : pq \in {x \in Paths \X Paths : x[1] # x[2]}}
              [] o \in {"sparse", "sparse-keep"} -> {<<s>> : s \in SparseSets}
+             \* clean -d also removes directories that hold nothing ("empty-dir": the worktree has an empty
+             \* directory tree outside the tracked paths, e.g. what removing its last file left behind)
+             [] o = "clean" -> {<<"plain">>, <<"empty-dir">>}
              [] o = "sparse2" -> {<<s, s0>> : s \in SparseSets, s0 \in SparseSets}
              [] OTHER -> {<<>>}
 
